@@ -11,6 +11,7 @@ pub const START_FEN: &str = "rnbqkbnr/pppppppp/8/8/8/8/PPPPPPPP/RNBQKBNR w KQkq 
 pub struct Visit<'a> {
     pub board: &'a ChessBoard,
     pub played: Option<BoardMove>,
+    #[allow(dead_code)]
     pub gen: usize, // 1, 2, 3
 }
 
@@ -28,8 +29,14 @@ pub fn load_seeds(stats: &mut Stats) -> Vec<(String, ChessBoard)> {
         }
         match catch(|| ChessBoard::from_fen(l)) {
             Some(Ok(b)) => v.push((l.to_string(), b)),
-            Some(Err(_)) => stats.inc("gen.seed_fens_rejected"),
-            None => stats.inc("gen.seed_fens_panicked"),
+            Some(Err(e)) => {
+                eprintln!("harness: seed FEN rejected ({e}): {l}");
+                stats.inc("gen.seed_fens_rejected")
+            }
+            None => {
+                eprintln!("harness: seed FEN panicked: {l}");
+                stats.inc("gen.seed_fens_panicked")
+            }
         }
     }
     stats.add("gen.seed_fens_loaded", v.len() as u64);
@@ -105,11 +112,55 @@ pub fn note_played(stats: &mut Stats, c: &MoveClass) {
 
 /// Weighted choice: weight 8 for special moves, 1 otherwise.
 pub fn choose_weighted(b: &ChessBoard, legal: &[BoardMove], rng: &mut Rng) -> Option<(BoardMove, MoveClass)> {
+    choose_weighted_bias(b, legal, rng, false)
+}
+
+/// Like `choose_weighted`; with `castle_bias` (pgn group, "castling-heavy") castling weighs 64,
+/// and while the side to move still holds a right: moves that vacate b/c/d/f/g of its back rank
+/// weigh 8, first moves of its b/d/e/g pawns weigh 4, and its rook / king moves (which would
+/// destroy the right) weigh 1 instead of 8.
+pub fn choose_weighted_bias(
+    b: &ChessBoard,
+    legal: &[BoardMove],
+    rng: &mut Rng,
+    castle_bias: bool,
+) -> Option<(BoardMove, MoveClass)> {
     if legal.is_empty() {
         return None;
     }
     let classes: Vec<MoveClass> = legal.iter().map(|m| classify(b, m)).collect();
-    let weights: Vec<usize> = classes.iter().map(|c| if c.special() { 8 } else { 1 }).collect();
+    let holds = castle_bias
+        && catch(|| b.get_castle_rights(b.get_side_to_move()).has_any()).unwrap_or(false);
+    let back = catch(|| b.get_side_to_move().get_back_rank().to_index()).unwrap_or(0);
+    let pawn_rank = if back == 0 { 1 } else { 6 };
+    let weights: Vec<usize> = legal
+        .iter()
+        .zip(classes.iter())
+        .map(|(m, c)| {
+            if castle_bias && c.castle {
+                return 64;
+            }
+            if holds {
+                if c.rights_move {
+                    return 1;
+                }
+                if let BoardMove::MovePiece(p) = m {
+                    let s = p.get_source_square().to_index();
+                    if s / 8 == back && matches!(s % 8, 1 | 2 | 3 | 5 | 6) {
+                        return 8;
+                    }
+                    if p.get_piece_type() == PieceType::Pawn && s / 8 == pawn_rank && matches!(s % 8, 1 | 3 | 4 | 6) {
+                        return 4;
+                    }
+                }
+            }
+            if c.special() {
+                8
+            } else {
+                1
+            }
+        })
+        .collect();
     let total: usize = weights.iter().sum();
     let mut r = rng.below(total);
     for (i, w) in weights.iter().enumerate() {
